@@ -27,7 +27,10 @@ class Tokenizer:
         '@variables': CSSProductions.VARIABLES_SYM,
     }
     _linesep = '\n'
-    unicodesub = re.compile(r'\\[0-9a-fA-F]{1,6}(?:\r\n|[\t\r\n\f\x20])?').sub
+    # (an escaped backslash is matched too so that it cannot start an escape)
+    unicodesub = re.compile(
+        r'\\\\|\\[0-9a-fA-F]{1,6}(?:\r\n|[\t\r\n\f\x20])?'
+    ).sub
     cleanstring = re.compile(r'\\((\r\n)|[\n\r\f])').sub
 
     def __init__(self, macros=None, productions=None, doComments=True):
@@ -110,6 +113,8 @@ class Tokenizer:
 
         def _repl(m):
             "used by unicodesub"
+            if m.group(0) == '\\\\':
+                return m.group(0)
             num = int(m.group(0)[1:], 16)
             if num <= sys.maxunicode:
                 return chr(num)
